@@ -31,6 +31,10 @@ SCRIPTS = {
     "exit-idle-short-close": [("s", 0, "exits"), ("w", 0), ("i",), ("s", 1, "short"), ("w", 1), ("c",)],
     "exit-exit-idle-short-short-close": [("s", 0, "exits"), ("s", 1, "exits"), ("w", 0), ("w", 1), ("i",), ("s", 2, "short"), ("s", 3, "short"), ("w", 2), ("w", 3), ("c",)],
     "long-exit-short-release-close": [("s", 0, "long"), ("s", 1, "exits"), ("w", 1), ("i1",), ("s", 2, "short"), ("w", 2), ("r", 0), ("c",)],
+    # a job that is still running when the pool is closed and then ends its worker thread
+    "longexit-close": [("s", 0, "long-exits"), ("c",)],
+    "longexit-forkclose-release": [("s", 0, "long-exits"), ("fc",), ("r", 0)],
+    "longexit-short-forkclose-release": [("s", 0, "long-exits"), ("s", 1, "short"), ("fc",), ("r", 0)],
     # the system refuses to start another thread when the pool wants to grow (scripts run with fail_start)
     "long-short-short-release-close": [("s", 0, "long"), ("s", 1, "short"), ("s", 2, "short"), ("w", 2), ("r", 0), ("c",)],
 }
@@ -84,13 +88,13 @@ def make_run(cfg):
                 started[j] = started.get(j, 0) + 1
                 if state["closed_returned"]:
                     log.append(("started-after-close", j))
-                if kind == "long":
+                if kind in ("long", "long-exits"):
                     release[j].wait()
                 finished[j] = finished.get(j, 0) + 1
                 done_evt[j].flag = True
                 if kind == "raises":
                     raise RuntimeError("job %d ends with an exception" % j)
-                if kind == "exits":
+                if kind in ("exits", "long-exits"):
                     exiting.add(j)
                     raise SystemExit(0)
             job.j = j
